@@ -412,10 +412,30 @@ def run(ctx):
             d, h, m, s = [atom(T.affine(uncast(e.value))) for e in ems[2:6]]
             def is_secs(x):
                 return isinstance(x, Aff) and len(x.m) == 1 and list(x.m.keys())[0][0] == "opaque" and "as_secs" in list(x.m.keys())[0][1] and x.c == 0
-            okd = d is not None and d[0] == "div" and d[2] == 86400 and is_secs(d[1])
-            okh = h is not None and h[0] == "div" and h[2] == 3600 and atom(h[1]) is not None and atom(h[1])[0] == "rem" and atom(h[1])[2] == 86400 and is_secs(atom(h[1])[1])
-            okm = m is not None and m[0] == "div" and m[2] == 60 and atom(m[1]) is not None and atom(m[1])[0] == "rem" and atom(m[1])[2] == 3600 and is_secs(atom(m[1])[1])
-            oks = s is not None and s[0] == "rem" and s[2] == 60 and is_secs(s[1])
+            def field_of(x):
+                """(M, D) when x is floor((secs mod M) / D) (M None: no reduction), however the divisions and remainders are nested:
+                (s / a) / b = s / (a*b);  (s / a) % b = (s % (a*b)) / a;  (s % M) / c;  s % c = (s % c) / 1"""
+                if x is None or x[0] not in ("div", "rem") or not isinstance(x[2], int) or x[2] <= 0:
+                    return None
+                inner = x[1]
+                ia = atom(inner) if isinstance(inner, Aff) else None
+                if x[0] == "div":
+                    if is_secs(inner):
+                        return (None, x[2])
+                    if ia is not None and ia[0] == "div" and isinstance(ia[2], int) and is_secs(ia[1]):
+                        return (None, x[2] * ia[2])
+                    if ia is not None and ia[0] == "rem" and isinstance(ia[2], int) and is_secs(ia[1]):
+                        return (ia[2], x[2])
+                    return None
+                if is_secs(inner):
+                    return (x[2], 1)
+                if ia is not None and ia[0] == "div" and isinstance(ia[2], int) and is_secs(ia[1]):
+                    return (x[2] * ia[2], ia[2])
+                return None
+            okd = field_of(d) == (None, 86400)
+            okh = field_of(h) == (86400, 3600)
+            okm = field_of(m) == (3600, 60)
+            oks = field_of(s) == (60, 1)
             ok = okd and okh and okm and oks
             why = "days/h/m/s slots: %s %s %s %s (need secs/86400, secs%%86400/3600, secs%%3600/60, secs%%60)" % (okd, okh, okm, oks)
             if ok and len(ems) == 7:
